@@ -568,6 +568,22 @@ func (s *sim) prepare(e *env, op Op, idx int) callFn {
 	return nil
 }
 
+// mergeFork maps the drawn number to the fork point of a merge at history index idx: the remote
+// node shares the history up to one of the last four positions (fork == idx: no divergence, the
+// merge is a fast-forward; smaller: the local operations after the fork are concurrent with the
+// remote one), and keeps the first two operations (usually the seed documents) when there are any.
+func mergeFork(n, idx int) int {
+	fork := idx - n%4
+	lo := idx
+	if lo > 2 {
+		lo = 2
+	}
+	if fork < lo {
+		fork = lo
+	}
+	return fork
+}
+
 // mergeMsg builds (once per operation index) the remote commit a merge operation delivers: a
 // second node replays a prefix of the history (the fork point), performs the remote operation
 // and the commit it announces is the message.
@@ -577,7 +593,7 @@ func (s *sim) mergeMsg(idx int) *mergeMsg {
 	}
 	s.msgDone[idx] = true
 	op := s.opAt(idx)
-	fork := op.N % (idx + 1)
+	fork := mergeFork(op.N, idx)
 	role := fmt.Sprintf("remote-%d", idx)
 	r := s.build(role, fork)
 	defer r.close()
